@@ -73,7 +73,7 @@ static uint64_t mix64(uint64_t a, uint64_t b) {
 enum TState { T_UNUSED = 0, T_RUNNABLE, T_BLOCKED, T_EXITED };
 enum { WR_WOKEN = 0, WR_TIMEOUT = 1, WR_SPURIOUS = 2 };
 enum Policy { POL_RANDOM = 0, POL_PCT = 1, POL_RR = 2, POL_NPOL = 3 };
-enum DType { D_SWITCH = 1, D_PICK = 2, D_WAKECHOICE = 3, D_FAULT = 4, D_LATE = 5, D_SLOW = 6, D_YIELDNOOP = 7, D_EINTR = 8, D_STOREDELAY = 9 };
+enum DType { D_SWITCH = 1, D_PICK = 2, D_WAKECHOICE = 3, D_FAULT = 4, D_LATE = 5, D_SLOW = 6, D_YIELDNOOP = 7, D_EINTR = 8, D_STOREDELAY = 9, D_SPURWAIT = 10 };
 
 struct SimThread {
   int id;
@@ -94,6 +94,7 @@ struct SimThread {
   void* arg;
   void* ret;
   uint64_t stall_until;
+  bool spur_wake; // this wait ends in a spurious wake-up (its timer is the wake time, not a timeout)
   int64_t prio;
   uint32_t load_streak;
   uint32_t run_streak;
@@ -402,6 +403,11 @@ static bool timer_pop_valid(Timer* out) {
 }
 static void fire_timer(const Timer& tm) {
   SimThread& t = g.th[tm.tid];
+  if (t.spur_wake) {
+    make_runnable(&t, WR_SPURIOUS);
+    fp_mix(0x7200 + (uint64_t)tm.tid);
+    return;
+  }
   if (t.wk == SW_FUTEX) {
     g.futex_timeouts++;
     if (g.in_idle)
@@ -1478,7 +1484,29 @@ static int wake_n(int wk, const void* addr, int count) {
 static int block_on(int wk, const void* addr, uint64_t deadline) {
   SimThread* t = self();
   t->block_seq = ++g_block_seq;
+  // per-wait spurious wake-up: decided when the wait begins (short workloads never live long enough to
+  // meet one of the periodic fault opportunities), delivered by a timer before the real deadline
+  t->spur_wake = false;
+  if (wk == SW_FUTEX || wk == SW_COND) {
+    int kind = wk == SW_FUTEX ? SF_SPURIOUS_FUTEX : SF_SPURIOUS_COND;
+    uint64_t d = 0;
+    if (g.replay) {
+      int64_t v;
+      if (replay_take(D_SPURWAIT, &v) && v > 0)
+        d = (uint64_t)v;
+    } else if (g.faults_enabled && !g.in_tail && (g.faults_on & SF_BIT(kind)) && g.r_fault.below(8) == 0) {
+      static const uint64_t ds[] = {50, 500, 5000, 50000, 500000, 5000000};
+      d = ds[g.r_fault.below(6)];
+    }
+    if (d && (!deadline || g.now + d < deadline)) {
+      record(D_SPURWAIT, (int64_t)d);
+      g.fired[kind]++;
+      t->spur_wake = true;
+      deadline = g.now + d;
+    }
+  }
   int r = block_current(wk, addr, deadline);
+  t->spur_wake = false;
   t->quiet = false;
   return r;
 }
